@@ -353,6 +353,14 @@ class Function:
         is given the macro's name so that rules can treat it as a call of that name."""
         for b in self.blocks.values():
             for el in b["elems"]:
+                e0 = el["e"]
+                if isinstance(e0, dict) and e0.get("k") == "cond" and not e0.get("mac"):
+                    # expression statement `X_List_op(...);` : the conditional is the element itself and the
+                    # macro's outer parentheses keep it from being recognised as the whole expansion
+                    for m in el.get("mac") or []:
+                        if re.match(r"^\w+List_\w+$", m):
+                            e0["mac"] = m
+                            break
                 for n in walk(el["e"]):
                     if n.get("mac") and n.get("k") in ("ref", "cond"):
                         c = self.resolve(n)
